@@ -349,3 +349,58 @@ pub fn unrle(r: &[(u8, u32)]) -> Vec<u8> {
     }
     out
 }
+
+// ---------------------------------------------------------------------------------------------
+// function-entry yield points (the "fn" build of the harness, see tools/mc_wrap.sh)
+// ---------------------------------------------------------------------------------------------
+//
+// In the fn build the code under test is compiled with -Zinstrument-mcount: every function of
+// avra_lib (and of the helper crates it calls) calls `mcount` on entry. That turns every
+// function entry - inside the PEG parser of one line, inside Display impls, inside instruction
+// encoding - into a potential yield point without touching /repo. To keep episodes short only
+// every k-th entry becomes a real yield point; k is drawn per thread from a generator seeded by
+// (scheduler seed, thread), so it is the same in a replay.
+
+pub const SITE_FN_ENTRY: u32 = 200;
+
+pub static FN_MEAN: AtomicUsize = AtomicUsize::new(0);
+
+thread_local! {
+    static FN_COUNTDOWN: std::cell::Cell<u32> = const { std::cell::Cell::new(u32::MAX) };
+    static FN_RNG: std::cell::RefCell<Option<Rng>> = const { std::cell::RefCell::new(None) };
+}
+
+/// Arm function-entry yields on this simulated thread.
+pub fn fn_yield_arm(seed: u64, tid: usize, mean: u32) {
+    FN_RNG.with(|r| *r.borrow_mut() = Some(Rng::new(crate::rng::mix(seed, &[0xF17, tid as u64]))));
+    FN_COUNTDOWN.with(|c| c.set(mean));
+}
+
+pub fn fn_yield_disarm() {
+    FN_COUNTDOWN.with(|c| c.set(u32::MAX));
+}
+
+#[cfg(verif_mcount)]
+#[no_mangle]
+pub extern "C" fn mcount() {
+    let c = FN_COUNTDOWN.with(|c| c.get());
+    if c == u32::MAX {
+        return; // not armed on this thread
+    }
+    if c > 0 {
+        FN_COUNTDOWN.with(|x| x.set(c - 1));
+        return;
+    }
+    if crate::simlibc::active_tid().is_none() {
+        return; // inside the seam or the scheduler
+    }
+    let mean = FN_MEAN.load(Ordering::Relaxed) as u64;
+    let next = FN_RNG.with(|r| r.borrow_mut().as_mut().map(|g| g.below(2 * mean + 1) as u32).unwrap_or(u32::MAX - 1));
+    FN_COUNTDOWN.with(|x| x.set(u32::MAX)); // no re-entry while yielding
+    crate::simlibc::bypass(|| sink(SITE_FN_ENTRY));
+    FN_COUNTDOWN.with(|x| x.set(next));
+}
+
+pub fn fn_build() -> bool {
+    cfg!(verif_mcount)
+}
